@@ -45,14 +45,16 @@ prop("C17", ["contracts.c10_network", "contracts.c11_nmt", "contracts.c17_period
      not_decided=["real-time behaviour of the transmitting thread"])
 
 prop("C19", ["contracts.c19_p402"],
-     ["StateDecode", "NextState", "NextStateRefused", "ChangeState", "SetState", "SetStateAuto", "SetStatePdo", "OpModeSet"],
+     ["StateDecode", "NextState", "NextStateRefused", "ChangeState", "SetState", "SetStateAuto", "SetStatePdo", "OpModeSet", "OpModePdo"],
      assumed=["conformant CiA 402 drive (env/drive402.py): reacts to a controlword with the transition CiA 402 defines for its "
               "current state, reports any statusword matching its state's bit pattern, displays the mode it was given",
               "controlword/statusword carried by SDO objects, or (SetStatePdo) by an RPDO / TPDO pair over env/drive402.py PdoLink: the RPDO "
               "reaches the drive at transmit() (event-driven) or before the next TPDO (periodic), every TPDO reception runs the node's "
-              "on_TPDOs_update_callback; the cached statusword is current when the assignment starts"],
-     not_decided=["time-outs in real time; automatic transitions with the PDO transport; a stale cached statusword at the start of an "
-                  "assignment (PDO transport); operation mode carried by PDO"])
+              "on_TPDOs_update_callback; the cached statusword is current when the assignment starts",
+              "operation mode carried by PDO (OpModePdo): 6060h in an RPDO / 6061h in a TPDO over env/drive402.py ModeLink, event-driven or "
+              "periodic; the drive displays the mode it was given; the cached display is current when the assignment starts"],
+     not_decided=["time-outs in real time; automatic transitions with the PDO transport; a stale cached statusword / mode display at the start of an "
+                  "assignment (PDO transport)"])
 
 prop("C18", ["contracts.c18_lss"],
      ["LssNoReplyServices", "LssConfigure", "LssInquire", "LssSendAddress", "LssSwitchSelective", "LssFastScanMessage", "LssFastScan", "LssFastScanTwice", "LssStaleReplies"],
@@ -125,7 +127,7 @@ prop("C13", ["contracts.c01_client", "contracts.c12_blockdown", "contracts.c13_b
                   "CORRUPTED segments and wrong end frames over whole transfers are covered per function (BuRead, BuClose) and by the "
                   "bounded stand-in; termination and timing of _retransmit's deadline loop (partial correctness only)"])
 
-prop("C08", ["contracts.c04_codec", "contracts.c08_eds", "contracts.c20_views"], ["CalcBitLength", "SignedIntFromHex", "BuildVariableNumbers", "OdLookup", "ArrayTemplate"],
+prop("C08", ["contracts.c04_codec", "contracts.c08_eds", "contracts.c20_views"], ["CalcBitLength", "SignedIntFromHex", "BuildVariableNumbers", "BuildVariableDataType", "OdLookup", "ArrayTemplate"],
      bounded=[("bounded.eds", "import_described")],
      assumed=["trusted axioms about CPython text/number conversion: int(text_of(n), 0) == n for the spellings 0x%X and %d; "
               "a numeric text stays the text of the same number under .upper() and removal of blanks and never contains '$NODEID'",
@@ -133,7 +135,7 @@ prop("C08", ["contracts.c04_codec", "contracts.c08_eds", "contracts.c20_views"],
      not_decided=["import_eds as a whole (regex section classification, RawConfigParser parsing, comprehensions, $NODEID text "
                   "forms, CompactSubObj expansion, device info, comments): covered only by the bounded stand-in"])
 
-prop("C14", ["contracts.c04_codec", "contracts.c08_eds"], ["RevertConvert", "BuildVariableNumbers", "SignedIntFromHex", "CalcBitLength"],
+prop("C14", ["contracts.c04_codec", "contracts.c08_eds"], ["RevertConvert", "BuildVariableNumbers", "BuildVariableDataType", "SignedIntFromHex", "CalcBitLength"],
      bounded=[("bounded.eds", "export_import_roundtrip")],
      assumed=["trusted axioms about CPython text/number conversion (see C08); f\"0x{v:02X}\" of a negative v is \"0x-…\", which int(., 0) rejects"],
      not_decided=["export_eds / import_eds document assembly (datetime, RawConfigParser.write, destination handling): "
